@@ -1,4 +1,4 @@
-CONSTANTS Variant = "std"  MaxSum = 12  MaxIns = 2  MaxPays = 4  MaxFee = 5
+CONSTANTS Variant = "std"  MaxSum = 10  MaxIns = 2  MaxPays = 4  MaxFee = 4
           ScaleKs = {12}  ScaleRs = {0}
           SrcPatterns = {"rev"}  ToPatterns = {"distinct"}
           EmitScaled = FALSE
